@@ -79,8 +79,47 @@ def sec_families(ctx, rng, case):
         qs = [cirq.LineQid(i, d) for i, d in enumerate(spec.shape)]
         op = gate.on(*qs)
         ctx.check(L.allclose(cirq.unitary(op), ref, ATOL), "unitary(op)==catalogue", "C03:op-matrix:" + spec.name, "", **wit)
+    # read-only queries leave the gate as it is: the same object reports the documented matrix afterwards
+    asked = _query_battery(cirq, gate, spec, rng)
+    again = cirq.unitary(gate, None)
+    ctx.check(again is not None and L.allclose(again, ref, ATOL), "unitary-unchanged-by-queries", "C03:matrix-changed-by-query:" + spec.name,
+              lambda: "after %s the same gate object reports a matrix %.3g away from the documented one" % (asked, L.maxdiff(again, ref) if again is not None else float("nan")),
+              queries=asked, **wit)
     ctx.distinct((spec.name, _pkey(p)), nontrivial=not L.allclose(ref, np.eye(ref.shape[0]), 1e-6))
     ctx.sample({"family": spec.name, "params": _pkey(p), "gate": repr(gate)[:120]})
+
+
+def _query_battery(cirq, gate, spec, rng):
+    """a few of the library's read-only questions about one gate object (their answers are other properties' business)"""
+    other = spec.make(spec.sample(rng))
+    qs = [cirq.LineQid(i, d) for i, d in enumerate(spec.shape)]
+    queries = [
+        ("equal_up_to_global_phase(other)", lambda: cirq.equal_up_to_global_phase(gate, other)),
+        ("equal_up_to_global_phase(self)", lambda: cirq.equal_up_to_global_phase(gate, gate)),
+        ("equal_up_to_global_phase(other, self)", lambda: cirq.equal_up_to_global_phase(other, gate)),
+        ("in Gateset", lambda: gate in cirq.Gateset(other, type(gate))),
+        ("GateFamily(self) contains other", lambda: other in cirq.GateFamily(gate)),
+        ("approx_eq", lambda: cirq.approx_eq(gate, other, atol=1e-6)),
+        ("==/hash", lambda: (gate == other, hash(gate))),
+        ("repr/str", lambda: (repr(gate), str(gate))),
+        ("pow", lambda: (cirq.pow(gate, 1, None), cirq.pow(gate, 0.5, None), cirq.inverse(gate, None))),
+        ("trace_distance_bound", lambda: cirq.trace_distance_bound(gate)),
+        ("has_stabilizer_effect", lambda: cirq.has_stabilizer_effect(gate)),
+        ("decompose", lambda: cirq.decompose_once_with_qubits(gate, qs, None)),
+        ("commutes", lambda: cirq.commutes(gate, other, default=None)),
+        ("phase_by", lambda: cirq.phase_by(gate, 0.25, 0, None) if spec.shape else None),
+        ("circuit diagram", lambda: cirq.circuit_diagram_info(gate, default=None)),
+        ("resolve", lambda: cirq.resolve_parameters(gate, {"a": 1.0})),
+    ]
+    picked = [queries[int(i)] for i in rng.choice(len(queries), size=int(rng.integers(3, 9)), replace=False)]
+    names = []
+    for name, fn in picked:
+        try:
+            fn()
+        except Exception:  # noqa: whether a question is answered or refused is not the subject here
+            name += "(raised)"
+        names.append(name)
+    return names
 
 
 def sec_channels(ctx, rng, case):
